@@ -15,6 +15,7 @@ import (
 	"time"
 
 	"verifharness/codec"
+	"verifharness/fix44reg"
 )
 
 func main() {
@@ -67,6 +68,12 @@ func main() {
 				fatal(fmt.Errorf("bad case line: %v: %.200s", err, line))
 			}
 			o := runCase(&c)
+			if strings.Contains(*fam, "late") { // the same case built in the other order
+				c2 := c
+				c2.ID = c.ID + "/late"
+				c2.Late = true
+				runCase(&c2)
+			}
 			if strings.Contains(*fam, "damage") {
 				if o.SerOk {
 					emit(codec.RunDamage(c.ID+"/dmg", &c.M, o.Wire.Bytes(), *fullDamage))
@@ -167,6 +174,21 @@ func main() {
 		if has("damage") {
 			for i, o := range dmgBases {
 				emit(codec.RunDamage(o.ID+"/dmg", &dmgTmpl[i].M, o.Wire.Bytes(), *fullDamage))
+			}
+		}
+		if has("fix44") {
+			if len(fix44reg.All) == 0 {
+				fatal(fmt.Errorf("fix44 registry is empty (reg_gen.go not generated)"))
+			}
+			per := 1 + *n/len(fix44reg.All)
+			for _, e := range fix44reg.All {
+				for k := 0; k < per; k++ {
+					o, err := g.ObjectCase(e.Name, e.New, *seed*1000003+int64(k))
+					if err != nil {
+						fatal(fmt.Errorf("fix44 %s: %v", e.Name, err))
+					}
+					emit(o)
+				}
 			}
 		}
 		if has("raw") {
